@@ -29,6 +29,7 @@ import impl
 import deck as deckmod
 import c13_tie as tie
 import c13_sweep as sweep
+import c13_corpus
 from common import cz, cbool, clist, cpair, cn
 
 THEOREMS = ['C13_dedup_merges_equal', 'C13_dedup_merges_tested',
@@ -202,6 +203,24 @@ def run_witness_empty(res):
                           'deck', {'observed': cap,
                                    'theorem_or_correspondence':
                                    'tie:witness-empty'}, found_input=False)
+
+
+def run_corpus(res):
+    vectors = sweep.option_vectors('thorough', random.Random(0))
+    for name, text in c13_corpus.CORPUS:
+        out = sweep.run_deck(text, [], vectors, 1, 150, 150)
+        res.seen(('corpus', name), nontrivial=True)
+        bad = [(v, st) for v, st in out['status'] if st != 'ok']
+        if bad or out['diffs']:
+            what = (f'{bad[0][0]} -> {bad[0][1]}' if bad else
+                    f'{out["diffs"][0]["kind"]} {out["diffs"][0]["sigs"]}')
+            res.violation('impl-violation',
+                          f'corpus deck {name}: the option vectors disagree: '
+                          + what[:300],
+                          {'input': {'deck': text, 'vectors': vectors},
+                           'observed': out['status']}, found_input=True)
+    res.obligation(f'corpus ({len(c13_corpus.CORPUS)} decks x {len(vectors)} '
+                   'option vectors)', True, '')
 
 
 def tie_eq(res, rng, n):
@@ -659,6 +678,7 @@ def run(res, tier, seed, proofs_ok):
                 'non-empty to_inline / nested or duplicated deck')
     run_witnesses(res)
     run_witness_empty(res)
+    run_corpus(res)
     tie_eq(res, rng, 600 if quick else 4000)
     tie_dedup(res, rng, 300 if quick else 2000)
     tie_renumber(res, rng, 200 if quick else 1500)
@@ -666,6 +686,14 @@ def run(res, tier, seed, proofs_ok):
     tie_inlining(res, rng, 300 if quick else 2000)
     tie_fill(res, rng, 200 if quick else 1500)
     run_sweep(res, tier, rng)
+
+
+EVAL_HEADER = HEADER + 'Import ListNotations.\n'
+
+
+def model_eval(term):
+    val, raw = common.coq_eval(EVAL_HEADER, term)
+    return val if val is not None else 'coqc said: ' + raw[-400:]
 
 
 def replay(path):
@@ -685,15 +713,15 @@ def replay(path):
         if not out['diffs']:
             print('no difference between the outputs that were written')
     elif 'eq_pair' in inp:
-        a, b = inp['eq_pair']
+        a, b = (fix_desc(d) for d in inp['eq_pair'])
         print('implementation ==:', tie.to_surface(a) == tie.to_surface(b))
-        model, _ = common.coq_eval(HEADER, f'desc_eqb FS {tie.coq_desc(a)} '
+        model = model_eval(f'desc_eqb FS {tie.coq_desc(a)} '
                                    f'{tie.coq_desc(b)}')
         print('model:', model)
     elif 'surfaces' in inp:
-        items = [(k, d) for k, d in inp['surfaces']]
+        items = [(k, fix_desc(d)) for k, d in inp['surfaces']]
         print('implementation:', tie.impl_dedup(items))
-        model, _ = common.coq_eval(HEADER, 'let (s, r) := '
+        model = model_eval('let (s, r) := '
                                    f'remove_duplicate_surfaces FS '
                                    f'{tie.coq_surfs(items)} in (map fst s, r)')
         print('model:', model)
@@ -702,13 +730,46 @@ def replay(path):
         ti, out = tie.impl_inline(cells, inp.get('score', 1.0),
                                   random.Random(0))
         print('implementation: to_inline', ti, out)
-        model, _ = common.coq_eval(HEADER, f'inline_cells 60 '
+        model = model_eval(f'inline_cells 60 '
                                    f'{clist(cz(k) for k in ti)} '
                                    f'{tie.coq_cells(cells)}')
+        print('model:', model)
+    elif 'finish' in inp:
+        skip, items, vols, u0, u1 = inp['finish']
+        items = [(k, fix_desc(d)) for k, d in items]
+        vols = [(k, v) for k, v in vols]
+        out, seen = tie.impl_finish(skip, items, vols, u0, u1)
+        print('implementation:', out)
+        model = model_eval(f'match finish FS {cbool(skip)} {tie.coq_surfs(items)} '
+            f'{tie.coq_volus(vols)} {cz(u0)} {cz(u1)} with Ok (s, v, w) => '
+            'Ok (map fst s, v, w) | Err e => Err e end')
+        print('model:', model)
+    elif 'volumes' in inp:
+        vols = [(k, v) for k, v in inp['volumes']]
+        ren = [tuple(x) for x in inp['renumbering']]
+        print('implementation:', tie.impl_renumber(vols, ren))
+        model = model_eval(f'renumber_surfaces {tie.coq_volus(vols)} '
+            + clist(cpair(cz(a), cz(b)) for a, b in ren))
+        print('model:', model)
+    elif 'fill_cells' in inp:
+        cells = [(k, fix_tree_cell(c)) for k, c in inp['fill_cells']]
+        fd, fg = inp['flags']
+        free_key, out = tie.impl_fill(cells, fd, fg, random.Random(0))
+        print('implementation:', out)
+        model = model_eval(f'fill_loop 40 {cbool(fd)} {cbool(fg)} '
+            f'{tie.coq_cells(cells)} (fill_keys {tie.coq_cells(cells)}) '
+            f'({tie.coq_cells(cells)}, {cz(free_key)})')
         print('model:', model)
     else:
         print(json.dumps(inp)[:2000])
     return 0
+
+
+def fix_desc(d):
+    d = dict(d)
+    if d.get('trans') is not None:
+        d['trans'] = (list(d['trans'][0]), list(d['trans'][1]))
+    return d
 
 
 def fix_tree(tree):
